@@ -47,12 +47,14 @@ FILTER_EXPRS = [
     "a > 1", "a == 1", "a >= 1 and s < 'y'", "s == 'x'", "s != t", "s in ['x','z']",
     "a % 2 == 0 or t == 'y'", "ID != 'r3'", "len(s + t) == 2", "not a", "bool(a)", "True",
     "t.lower() == 'x' and a < 2", "ID < 'r5'", "a == 0 or a == 2",
+    # string literals are data: typographic quotes, separators and escapes inside them mean themselves
+    "s == \"l’é\"", "'’' in s or '“' in t", "s != '‘q’'", "t == 'a;b' or s == 'a|b'",
     # not the object True: keeps nothing, whatever the truthiness
     "a", "s", "1", "a or 1", "[a]",
 ]
 SORT_EXPRS = [
     "a", "-a", "s", "t", "s + t", "s.lower()", "len(s)", "a % 2", "ID", "a * 0", "a > 1",
-    "t + ID[:1]", "a * a - 2 * a", "ID[::-1]", "min(a, 1)",
+    "t + ID[:1]", "a * a - 2 * a", "ID[::-1]", "min(a, 1)", "s.count('’')", "(s + t).replace('“', '\"')",
 ]
 ORDERS = ["", "", "ascending", "descending", "descending", "Descending", "DESCENDING", "desc"]
 BAD_FILTER = ["nope > 1", "a >"]
@@ -60,7 +62,7 @@ BAD_SORT = ["nope", "a +"]
 
 IDS = [f"r{i}" for i in range(10)]
 S_SMALL = ["x", "y", "z"]
-S_WIDE = ["x", "y", "z", "X", "Y", "xy", "", "é", "日", "a1", "Zz", "\U0001F600"]
+S_WIDE = ["x", "y", "z", "X", "Y", "xy", "", "é", "日", "a1", "Zz", "\U0001F600", "l’é", "‘q’", "“d”", "l'é", "a;b", "a|b"]
 A_SMALL = [0, 1, 2]
 A_WIDE = [-3, -1, 0, 1, 2, 3, 7, 10, 12]
 
